@@ -2,15 +2,43 @@
 
 package field
 
-// VerifC04Reg / VerifC20Reg: accessors looked up by name at run time (see hooks/curve/verif_export_c04_c20_reg.go).
+// Self-contained limb accessors and registries for C04 / C20.  This file depends on nothing but the field
+// `Element.inner` (an array of limbs): in particular it does not depend on the shared accessor files of this package,
+// so a renamed helper (feMulGeneric, ...) that makes one of those stop compiling does not take C04 / C20 with it.
+
+// VerifC04Reg / VerifC20Reg: fragile accessors register themselves here by name from files of their own and are looked
+// up at run time (see hooks/curve/verif_export_c04_c20_reg.go).
 var (
 	VerifC04Reg = map[string]interface{}{}
 	VerifC20Reg = map[string]interface{}{}
 )
 
-// VerifLimbsInto copies the raw limbs (widened to uint64) into dst without allocating.
-func VerifLimbsInto(fe *Element, dst *[VerifLimbCount]uint64) {
+// VerifC04LimbCount is the number of limbs of the active backend (5 x 51 bits or 10 x 25.5 bits).
+const VerifC04LimbCount = len(Element{}.inner)
+
+// VerifC04LimbsInto copies the raw limbs (widened to uint64) into dst without allocating.
+func VerifC04LimbsInto(fe *Element, dst *[VerifC04LimbCount]uint64) {
 	for i, v := range fe.inner {
 		dst[i] = uint64(v)
 	}
+}
+
+// VerifC04Limbs returns the raw limbs widened to uint64.
+func VerifC04Limbs(fe *Element) []uint64 {
+	out := make([]uint64, VerifC04LimbCount)
+	for i, v := range fe.inner {
+		out[i] = uint64(v)
+	}
+	return out
+}
+
+// VerifC04FromLimbs builds an element from raw (possibly unreduced) limbs; missing limbs are zero.
+func VerifC04FromLimbs(l []uint64) Element {
+	var fe Element
+	for i := range fe.inner {
+		if i < len(l) {
+			verifC04Set(&fe, i, l[i])
+		}
+	}
+	return fe
 }
